@@ -74,4 +74,15 @@ PROPS = {
         rule="K9: random handle life-cycle scripts (opens with equal and differing configuration, clones, OrphanStats kept alive, drops, "
              "child processes holding the store, kill -9, 2-8 racing threads, 2-4 racing processes); every losing open is checked for "
              "AlreadyOpened, an identical directory and a call trace of exactly `create LOCK`"),
+    "C09": dict(
+        suites=["powerloss"], tags={"recover_open", "recover_state", "usable", "cas_content", "disk_wellformed", "disk_history"},
+        rule="every cut point of the real recorded call trace (shim log with data) x every non-empty set of files that have unsynced bytes at that instant "
+             "(all subsets up to 3 files) -> directory materialised -> real reopen -> acknowledged operations survive with intact blobs, in-flight op all-or-nothing",
+        assumptions=["power-loss model of the property: bytes not covered by an explicit sync of their file are lost, directory operations persist in issue order"]),
+    "C08": dict(
+        suites=["orphans", "crash", "conc"], tags={"scan_exact", "cleanup_complete", "cleanup_harmful", "dangling"}, crash_corr={"recovery"},
+        rule="planted garbage at every level of cas/ (unreferenced blobs, wrong bytes under canonical names, bad names, files at level 1 and 2, "
+             "non-canonical spellings of a hash) and in staging/, after random histories and at every crash image; scan lists vs directory listing and spec map; "
+             "delete_orphans / quarantine_orphans / delete_orphan then directory vs live contents; clean-up racing puts of orphaned content under model-chosen "
+             "and model-free schedules"),
 }
